@@ -1651,8 +1651,10 @@ class Norm(Contract):
         return {'ValueError': S.a['p'] not in (1, 2)}
 
     def ensures(self, S, res):
-        # frame (modifies nothing) is enforced by the frame obligations; the result is a scalar
+        # frame (modifies nothing) is enforced by the frame obligations; the result is a real scalar
         yield 'returns-scalar', isinstance(res, SNum)
+        if isinstance(res, SNum):
+            yield 'norm-is-a-real-number', z3.Not(res.cplx)
 
     def canary(self, S, res):
         return z3.BoolVal(False)
